@@ -262,6 +262,31 @@ where
             ),
         );
     }
+    // `Encodable::length` and embedding in RLP lists (`Vec<Enr>`): alloy-rlp takes list headers from
+    // `length()`, so a wrong length corrupts every list the record is put in
+    put(
+        "rtl",
+        g(
+            || {
+                let mut one = Vec::new();
+                e.encode(&mut one);
+                let len_ok = Encodable::length(e) == one.len();
+                let v = vec![e.clone(), e.clone(), e.clone()];
+                let listed = alloy_rlp::encode(&v);
+                let mut b: &[u8] = &listed;
+                let back = Vec::<Enr<K>>::decode(&mut b);
+                let mut expected = Vec::new();
+                let payload: Vec<u8> = [one.clone(), one.clone(), one.clone()].concat();
+                alloy_rlp::Header { list: true, payload_length: payload.len() }.encode(&mut expected);
+                expected.extend_from_slice(&payload);
+                let list_ok = listed == expected
+                    && b.is_empty()
+                    && matches!(&back, Ok(r) if r.len() == 3 && r.iter().all(|o| same(o)));
+                (len_ok, list_ok)
+            },
+            |(a, b)| format!("{}{}", a as u8, b as u8),
+        ),
+    );
     // conversions and iteration
     put(
         "conv",
@@ -269,8 +294,20 @@ where
             || {
                 let a: NodeId = e.into();
                 let b: NodeId = e.clone().into();
-                let n = e.clone().into_iter().count();
-                a == e.node_id() && b == e.node_id() && n == e.iter().count()
+                // the owning iterator yields exactly the pairs of the borrowing one, in the same order
+                let owned: Vec<(Vec<u8>, Vec<u8>)> =
+                    e.clone().into_iter().map(|(k, v)| (k, v.to_vec())).collect();
+                let borrowed: Vec<(Vec<u8>, Vec<u8>)> =
+                    e.iter().map(|(k, v)| (k.clone(), v.to_vec())).collect();
+                let raw_ok = borrowed
+                    .iter()
+                    .all(|(k, v)| e.get_raw_rlp(k).map(|x| x.to_vec()) == Some(v.clone()));
+                let c = e.clone();
+                let clone_ok = c == *e
+                    && c.seq() == e.seq()
+                    && c.signature() == e.signature()
+                    && c.iter().map(|(k, v)| (k.clone(), v.to_vec())).collect::<Vec<_>>() == borrowed;
+                a == e.node_id() && b == e.node_id() && owned == borrowed && raw_ok && clone_ok
             },
             |b| (b as u8).to_string(),
         ),
